@@ -16,7 +16,7 @@ RULE = ("A program P and a history Q1..Qk (k = 0..6), all drawn from the C13 gen
         "token programs: accepted, rejected and crashing ones alike, sharing label / EQU names and operand strings so "
         "that a stale cache would be hit). P is assembled (fresh Program object) before the history, after each prefix "
         "of the history, and twice in a row; in 1 case of 12 also in fresh interpreter processes with PYTHONHASHSEED 0, "
-        "1 and 12345. Oracle: the canonical result (outcome class, image, every listing line, every symbol line in "
+        "1 and 12345 (ten hash seeds for the enumerated programs whose EQU definitions depend on each other). Oracle: the canonical result (outcome class, image, every listing line, every symbol line in "
         "order, origin, name, diagnostic text) is identical in all runs; the list of lines passed in equals its copy "
         "afterwards; the module tables (INSTRUCTIONS, REGISTERS, the regular expressions) hash the same before and "
         "after. Non-trivial = k >= 1 with a rejected or crashed Q, or a fresh-process comparison; distinct by case hash.")
@@ -48,6 +48,13 @@ def enumerated(tier, seed):
     for p in (e, f):
         for qs in ([f], [e], [g], [g, f, e]):
             yield dict(p=p, qs=qs, fresh=False)
+    # definitions that depend on each other in every order: the result must not depend on hashing (fresh processes
+    # under ten hash seeds)
+    defs = ["SCREEN EQU $0400\n", "WIDTH EQU 32\n", "ROW1 EQU SCREEN+WIDTH\n", "ROW2 EQU ROW1+WIDTH\n", "ROW3 EQU ROW2+WIDTH\n",
+            "LAST EQU ROW3-1\n", "HALF EQU WIDTH/2\n", "MID EQU ROW1+HALF\n"]
+    body = [" ORG $2000\n", "START LDX #ROW3\n", " LDA MID\n", " FDB LAST,ROW2,MID\n", "TAB EQU START+3\n", " LDY #TAB\n"]
+    for order in (list(range(8)), list(range(7, -1, -1)), [3, 7, 1, 5, 0, 6, 2, 4], [5, 4, 3, 2, 7, 6, 1, 0]):
+        yield dict(p=[defs[i] for i in order[:4]] + body + [defs[i] for i in order[4:]], qs=[], fresh=True, hashseeds=list(range(10)))
     # histories with INCLUDE: failures below an include must not leak into later assemblies
     files = {"outer.asm": [" NOP \n", " INCLUDE inner.asm\n"], "inner.asm": ["LI LDA #1\n"], "bad.asm": [" INCLUDE gone.asm\n"],
              "loop.asm": [" INCLUDE loop.asm\n"], "broken.asm": [" NOP \n", " INCLUDE syntax.asm\n"], "syntax.asm": [" FOO 1\n"]}
@@ -156,7 +163,7 @@ def _execute(case):
     if case["fresh"]:
         labels.append("fresh_process")
         want = _jsonable(first)
-        for hs in (0, 1, 12345):
+        for hs in case.get("hashseeds", (0, 1, 12345)):
             got = _fresh(keep, hs)
             if got != want:
                 return viol("fresh process with PYTHONHASHSEED={} gives {!r}, warm process gave {!r}".format(hs, _short(got), _short(want)),
